@@ -46,7 +46,7 @@ SHARDS = {"quick": 16, "thorough": 16}
 SHARD_WATCHDOG = {"quick": 1500, "thorough": 10800}
 
 FILES = ["calibration_params.json", "scheduler_pickled.pickle", "loss_function_pickled.pickle", "calibration_results.csv", "series_samp.h5"]
-PKINDS = ["same_run", "other_run_same_rows", "other_run_diff_rows", "none", "same_run_no_batch"]
+PKINDS = ["same_run", "other_run_same_rows", "other_run_diff_rows", "none", "same_run_no_batch", "same_run_lineup_replaced"]
 SYSCALLS = ["openat", "write", "pwrite64", "ftruncate", "rename", "unlink", "fsync", "fdatasync", "pwritev", "lseek"]
 
 
@@ -57,12 +57,12 @@ def gen_cases(tier, seed):
         for pk in PKINDS:
             cases.append({"engine": "trunc", "backend": "json", "pkind": pk, "state": st, "seed": seed, "tier": tier})
             cases.append({"engine": "line", "backend": "json", "pkind": pk, "state": st, "seed": seed, "tier": tier})
-            if pk in ("same_run", "none", "other_run_same_rows", "same_run_no_batch"):
+            if pk in ("same_run", "none", "other_run_same_rows", "same_run_no_batch", "same_run_lineup_replaced"):
                 cases.append({"engine": "line", "backend": "sqlite", "pkind": pk, "state": st, "seed": seed, "tier": tier})
     for part in range(4):   # a save that appends several MiB of series in one go (process death only)
         cases.append({"engine": "kill", "backend": "json", "pkind": "same_run", "state": 0, "seed": seed, "tier": tier, "part": part, "parts": 4, "big": True})
     for st in range(1 if tier == "quick" else 3):
-        for pk in (["same_run", "other_run_same_rows", "same_run_no_batch"] if tier == "quick" else PKINDS):
+        for pk in (["same_run", "other_run_same_rows", "same_run_no_batch", "same_run_lineup_replaced"] if tier == "quick" else PKINDS):
             for inj in ("kill", "enospc"):
                 for backend in ("json", "sqlite"):
                     if backend == "sqlite" and pk == "other_run_diff_rows":
@@ -120,9 +120,13 @@ def make_states(desc, ctx):
                 cal.calibrate(2)
             if pk == "same_run_no_batch":
                 pass
-            elif pk == "same_run":
+            elif pk in ("same_run", "same_run_lineup_replaced"):
                 cal.create_checkpoint(dirP)
                 argsP = captured[-1]
+                if pk == "same_run_lineup_replaced":
+                    # between the two checkpoints the line-up gets a sampler of a class not seen before: the new checkpoint's id table
+                    # (and scheduler) differ from the previous one's
+                    cal.set_samplers([*cal.scheduler.samplers, G.build_sampler(G.gen_sampler_desc(rng, "RSequence", batch_size=cfg["lineup"][0]["batch_size"]))])
             elif pk != "none":
                 cfg2 = dict(cfg, seed=cfg["seed"] + 17, real_seed=cfg["real_seed"])
                 other = CG.build_calibrator(cfg2)
